@@ -198,6 +198,10 @@ func reflectValue(rv reflect.Value, val any, opt *Options) (v any) {
 			v = nil
 		}
 	case reflect.Slice, reflect.Array:
+		if rv.Kind() == reflect.Slice && rv.Type().Elem().Kind() == reflect.Uint8 {
+			v = decompose(rv.Bytes(), opt) // a named []byte type follows BytesAs like []byte itself
+			break
+		}
 		v = reflectArray(rv, opt)
 	case reflect.Struct:
 		v = reflectStruct(rv, val, opt)
